@@ -39,6 +39,30 @@ ASSUMPTIONS = [
 
 INJECT_KEY = "hygienize-inject-order: M0 = {emit}; M1 = {emit; M0(); emit}; both defined first; then a statement, M1(), a statement"
 INJECT_WITNESS = ([["e"], ["e", ("c", 0), "e"]], [("d", 0), ("d", 1), "p", ("c", 1), "p"])
+THEOREM_CLASSES = {
+    "C16_memoize_canonical": "main", "C16_generic_same_type": "main", "C16_memoize_once_per_class": "corollary",
+    "C16_polyeval_reuse": "main", "C16_polyeval_same_args_one_specialisation": "main",
+    "C16_polyeval_distinct_types_distinct_specialisations": "main", "C16_polyeval_comptime_values_distinguish": "main",
+    "C16_hygiene_resolution": "main", "C16_hygiene_no_leak": "main", "C16_restoring_pop_needed": "refutation",
+    "C16_hygiene_unbound_names_fall_through_partial": "corollary",
+    "C16_expand_for": "definitional", "C16_expand_loop_order": "definitional", "C16_expand_if_call": "definitional",
+    "C16_hygienize_own_order": "main",
+}
+UNPROVED = [
+    "clause 1 of the statement (code produced by ## loops / ## if / macros / #[ ]# / #| |# behaves like the hand expansion): preprocessor.lua is not modelled; the Coq expander is a specification and its theorems are definitional; the clause rests on compiling generated templates next to their expansion (stdout and emitted C modulo codenames)",
+    "cross-nesting named by the quantifier (macros inside generics inside polymorphic functions): the generator nests for/if/macros inside templates and probes generics, polymorphic functions and hygiene separately, not inside one another",
+    "memoize's real argument match (== with Type.__eq, shallow_compare_nomt on tables) being an equivalence: discharged only for the modelled match of generics (types by identity, values, nil: C16_generic_same_type); table arguments are covered by C07's memo stream",
+    "that each poly evaluation yields exactly one emitted C function: read from the emitted C in the poly stream only",
+    "the hygiene model has one scope chain and one statement list: that hygienize switches context.scope / statnodes to the definition's (a generic called from another block than its definition) is assumed; covered by the hygiene_nested stream only",
+    "memo_run's arbitrary pairs() orders are quantified in the theorem but cannot be steered in the harness (C07 runs the memoize module under different hash seeds)",
+    "aster.value, inject_value, concepts: through the generated programs only",
+]
+MANIFEST_ENTRY = {
+    "text": "proof, partial: theorems (on hand-written models tied by probe programs) for 'same arguments -> same type' (memoize, premises discharged for the modelled match), 'same argument types -> one specialisation, different -> distinct' (eval_poly), 'free names resolve where the generic was defined, nothing leaks' (checkpoints; restoring pop since b8843bb) and 'injected statements keep their order under nesting' (cursors, 6cc3727); the headline clause 'templates behave like their hand expansion' rests on differential compilation of generated templates only (definitional theorems about the specification expander)",
+    "note": "trusted: coqc, regex/structural scrape of poly_args_matches, eval_poly, pop/set/push_checkpoint, hygienize, generalize; harness/C16/gen.py (template and probe generators, renderers, C canonicaliser); the real compiler + gcc; preprocessor.lua unmodelled",
+    "technique": "Coq models of memoize / eval_poly / scope checkpoints / statement cursors + template-vs-expansion and probe programs through the real compiler",
+}
+
 LEAK_KEY = "hygiene-leak: generic body declares AUX; after `local H1: type = @H(integer)` the use site prints AUX"
 
 
@@ -74,12 +98,18 @@ def _gen(ctx, problems):
     if not re.search(r"function PolyFunctionType:eval_poly\(args, srcnode\)\s*local polyeval\s*if not self\.alwayspoly then\s*polyeval = self:get_poly_eval\(args\)\s*end\s*if not polyeval then\s*polyeval = \{ args = args, srcnode = srcnode\}\s*local evals = self\.evals\s*evals\[#evals\+1\] = polyeval", ty):
         problems.append("eval_poly is not the function the model mirrors")
     sc = vlib.repo_read("lualib/nelua/scope.lua")
-    m2 = re.search(r"function Scope:pop_checkpoint\(\)(.*?)\nend", sc, re.S)
+    sc_code = re.sub(r"--[^\n]*", "", re.sub(r"--\[\[.*?\]\]", "", sc, flags=re.S))     # comments carry no meaning
+    m2 = re.search(r"function Scope:pop_checkpoint\(\)(.*?)\nend", sc_code, re.S)
     if not m2:
         raise RuntimeError("cannot find Scope:pop_checkpoint")
-    merges = "merge_checkpoint" in m2.group(1)
-    if not merges and "set_checkpoint" not in m2.group(1):
-        problems.append("pop_checkpoint neither merges nor sets the saved checkpoint")
+    popbody = re.sub(r"\s+", " ", m2.group(1)).strip()
+    if popbody == "local oldcheckpoint = table.remove(self.checkpointstack) self:set_checkpoint(oldcheckpoint)":
+        merges = False
+    elif popbody == "local oldcheckpoint = table.remove(self.checkpointstack) self:merge_checkpoint(oldcheckpoint)":
+        merges = True
+    else:
+        merges = True
+        problems.append("pop_checkpoint is neither `pop; set_checkpoint(old)` nor `pop; merge_checkpoint(old)`: %s" % popbody[:120])
     if not re.search(r"function Scope:set_checkpoint\(checkpoint\)\s*tabler\.clear\(self\.symbols\)\s*tabler\.update\(self\.symbols, checkpoint\.symbols\)", sc):
         problems.append("set_checkpoint is not clear+update")
     if not re.search(r"function Scope:push_checkpoint\(checkpoint\).*?table\.insert\(self\.checkpointstack, self:make_checkpoint\(\)\)\s*self:set_checkpoint\(checkpoint\)", sc, re.S):
@@ -151,7 +181,7 @@ def correspond(ctx):
     corpus_lines = []
     if os.path.exists(cp):
         corpus_lines = [l.split("#")[0].strip() for l in vlib.read(cp).split("\n") if l.split("#")[0].strip()]
-    n_tpl = ctx.scale(40, 1500)
+    n_tpl = ctx.scale(120, 1500)
     for _ in range(n_tpl):
         cases.append(("template", g.gen_template(rng)))
     for _ in range(ctx.scale(12, 300)):
@@ -494,7 +524,5 @@ def correspond(ctx):
         "main_hygiene_theorem": ("C16_hygiene_no_leak : hygiene_no_leak POP_CHECKPOINT_MERGES (full strength: scopes exactly restored, no name of the body "
                                  "stays behind) is discharged for the scraped policy (pop_checkpoint restores)") if not (getattr(ctx, "c16", None) or {}).get("pop_checkpoint_merges", True)
                                 else "pop_checkpoint merges again: C16_hygiene_no_leak cannot check (see proof_problems)",
-        "unproved": ["preprocessor.lua's translation of the source into a Lua script is not modelled (the Coq expander is the specification it is compared against)",
-                     "aster.value / inject_statement / concepts are covered only through the generated programs",
-                     "nested definition scopes: names unbound at definition time resolve in the root scope at call time (stated, not excluded)"],
+        "unproved": UNPROVED,
     }
